@@ -8,7 +8,7 @@ use crate::{
         types::{CommonPlayer, CommonResponse, ExtraRequestSettings, GenericPlayer},
         GenericResponse,
     },
-    GDErrorKind::{InvalidInput, PacketBad, UnknownEnumCast},
+    GDErrorKind::{InvalidInput, PacketBad, PacketUnderflow, UnknownEnumCast},
     GDResult,
 };
 
@@ -274,7 +274,12 @@ pub(crate) fn as_varint(value: i32) -> Vec<u8> {
 }
 
 pub(crate) fn get_string<B: ByteOrder>(buffer: &mut Buffer<B>) -> GDResult<String> {
-    let length = get_varint(buffer)? as usize;
+    let length: usize = get_varint(buffer)?
+        .try_into()
+        .map_err(|e| PacketBad.context(e))?;
+    if length > buffer.remaining_length() {
+        return Err(PacketUnderflow.context("String length is larger than the remaining bytes"));
+    }
     let mut text = Vec::with_capacity(length);
 
     for _ in 0 .. length {
